@@ -232,7 +232,7 @@ theorem invD_apply (sc : Nat → Script) (s : St) (h : InvD sc s) (hA : InvA s) 
   | unsubCb n cb =>
     simp only [apply]; split
     · exact invD_frame sc s _ h rfl rfl
-    · exact h
+    · exact invD_frame sc s _ h rfl rfl
   | unsubOnce n sid =>
     simp only [apply]; split
     · exact invD_frame sc s _ h rfl rfl
